@@ -7,44 +7,63 @@
    Initialized, disappear from the API, disappear from the cluster state), clock jumps, informer
    deliveries and process restarts, of any length.  [trace (init n) ops] lists, for every step, the
    snapshot before, the operation and what happened; the clauses (del_after_init, ...) are the ones
-   the oracle of C08/Check.v evaluates on the implementation's observations (equivalences below). *)
+   the oracle of C08/Check.v evaluates on the implementation's observations (equivalences below).
+   The model follows /repo after the fixes 14eb43d3c (timeout wrapper) and 61c12d2bd (latched
+   replacements re-checked); the behaviour before them is kept as [recon_old] and refuted. *)
 From KV Require Import C08.Model C08.Proofs1 C08.Proofs.
 
 (* No candidate NodeClaim is deleted except by the command that holds it, and only once every
-   replacement of that command has been created and has reported Initialized. *)
+   replacement of that command has been created, has reported Initialized, and is still tracked by the
+   cluster state at the Delete call. *)
 Theorem delete_after_all_initialized : forall n ops, Forall del_after_init (trace (init n) ops).
 Proof. exact delete_after_all_initialized_l. Qed.
 Print Assumptions delete_after_all_initialized.
 
-(* Stronger reading ("a replacement disappears => no candidate deleted"): at the Delete call every
-   replacement still exists and is Initialized.  REFUTED on the unchanged tree (finding
-   latched-replacement-gone): Replacement.Initialized is latched and never re-validated. *)
+(* Before 61c12d2bd a replacement latched Initialized was never looked at again: candidates were deleted
+   for a replacement whose deletion the cluster state already knew. *)
+Theorem prefix_latched_replacement_gone_refuted :
+  ~ Forall del_after_init (trace_old (init 2) gone_witness) /\ Forall del_after_init (trace (init 2) gone_witness).
+Proof. exact prefix_latched_replacement_gone_refuted_l. Qed.
+Print Assumptions prefix_latched_replacement_gone_refuted.
+
+(* Against the API itself ("every replacement exists in the API at the Delete call"): holds whenever the
+   deletions of the command's replacements have been delivered to the cluster state ... *)
+Theorem delete_while_replacements_exist_partial : forall n ops,
+  Forall (fun x => deliveries_done x -> del_while_ready x) (trace (init n) ops).
+Proof. exact delete_while_replacements_exist_partial_l. Qed.
+Print Assumptions delete_while_replacements_exist_partial.
+
+(* ... and is REFUTED without that guard: the queue re-checks latched replacements against the cluster
+   state, so a deletion the informer has not delivered yet goes unnoticed (inherent to the cache). *)
 Theorem delete_while_replacements_exist_refuted :
   exists n ops, ~ Forall del_while_ready (trace (init n) ops).
 Proof. exact delete_while_replacements_exist_refuted_l. Qed.
 Print Assumptions delete_while_replacements_exist_refuted.
 
-(* ... it holds for every pass that itself observes all of the command's replacements (no latch from
-   an earlier pass). *)
-Theorem delete_while_replacements_exist_partial : forall n ops,
-  Forall (fun x => fresh_latches x -> del_while_ready x) (trace (init n) ops).
-Proof. exact delete_while_replacements_exist_partial_l. Qed.
-Print Assumptions delete_while_replacements_exist_partial.
+(* A command that is given up (replacement gone, or timeout - at any time) has deleted none of its
+   candidates, in this pass or an earlier one, in every history in which no Delete call fails on all of
+   its attempts ... *)
+Theorem failed_command_deletes_nothing_partial : forall n ops,
+  forallb nofail_op ops = true -> Forall failed_deletes_nothing (trace (init n) ops).
+Proof. exact failed_command_deletes_nothing_l. Qed.
+Print Assumptions failed_command_deletes_nothing_partial.
 
-(* A command that is given up (replacement gone, or timeout) has deleted none of its candidates.
-   REFUTED on the unchanged tree (finding timeout-after-delete): the deferred timeout wrapper of
-   waitOrTerminate turns a pass that deleted the candidates into an unrecoverable error. *)
+(* ... and is REFUTED without that guard (finding partial-delete-then-failure): one candidate is deleted,
+   the Delete of another fails on all attempts, the command later times out (or its replacement vanishes)
+   and is rolled back although a candidate is gone. *)
 Theorem failed_command_deletes_nothing_refuted :
   exists n ops, ~ Forall failed_deletes_nothing (trace (init n) ops).
 Proof. exact failed_command_deletes_nothing_refuted_l. Qed.
 Print Assumptions failed_command_deletes_nothing_refuted.
 
-(* ... it holds for every pass that runs within the command's retry window (10 min .. 1 h): then a
-   failure can only be a vanished replacement, and neither this pass nor an earlier one deleted. *)
-Theorem failed_command_deletes_nothing_partial : forall n ops,
-  Forall (fun x => timely x -> failed_deletes_nothing x) (trace (init n) ops).
-Proof. exact failed_command_deletes_nothing_partial_l. Qed.
-Print Assumptions failed_command_deletes_nothing_partial.
+(* Before 14eb43d3c no fault was needed: the deferred timeout wrapper turned a pass that had deleted
+   every candidate into a failure. *)
+Theorem prefix_timeout_wrapper_refuted :
+  forallb nofail_op timeout_witness = true /\
+  ~ Forall failed_deletes_nothing (trace_old (init 1) timeout_witness) /\
+  Forall failed_deletes_nothing (trace (init 1) timeout_witness).
+Proof. exact prefix_timeout_wrapper_refuted_l. Qed.
+Print Assumptions prefix_timeout_wrapper_refuted.
 
 (* A StartCommand that fails (candidate busy, marking failed, replacement creation failed) deletes
    nothing, leaves the queue and every deletion mark as they were. *)
@@ -104,23 +123,43 @@ Print Assumptions oracle_is_spec.
 
 (* ---------------------------------------------------------------- non-vacuity *)
 
+Definition obs_of (x : ostep) := (o_ret (snd x), deletes (o_eff (snd x))).
+
 (* a replace command runs to success: candidates deleted only in the pass that sees both replacements Initialized *)
 Example happy_path :
-  map (fun x => (o_ret (snd x), deletes (o_eff (snd x))))
+  map obs_of
       (trace (init 2) [Start [0; 1] 2 [] [] []; ReplLaunch 0 0; ReplLaunch 0 1; ReplInit 0 1; Recon 0 [] [] [] [];
                        ReplInit 0 0; Recon 1 [] [] [] []])
   = [(Started, []); (EnvOk, []); (EnvOk, []); (EnvOk, []); (RRequeue, []); (EnvOk, []);
-     (RSucceeded, [(0, true); (1, true)])].
+     (RSucceeded, [(0, true, true); (1, true, true)])].
 Proof. vm_compute. reflexivity. Qed.
 
-(* a replacement vanishes: the command fails within its window, deletes nothing, and the candidates are
-   untainted, condition-free, unmarked and unqueued again *)
+(* a replacement vanishes: the command fails, deletes nothing, and the candidate is untainted,
+   condition-free, unmarked and unqueued again *)
 Example vanished_rolls_back :
-  let s := run (init 1) [Start [0] 1 [] [] []; ReplDelApi 0 0; ReplDelState 0 0; Recon 0 [] [] [] []] in
-  s_q s = [] /\ s_nodes s 0 = mkNode false false false false false /\
-  timely (nth 3 (trace (init 1) [Start [0] 1 [] [] []; ReplDelApi 0 0; ReplDelState 0 0; Recon 0 [] [] [] []])
-              (snap_of (init 0), Restart, mkObs EnvOk [] (snap_of (init 0)))).
-Proof. vm_compute. repeat split. intros n H. inversion H; subst. reflexivity. Qed.
+  let ops := [Start [0] 1 [] [] []; ReplDelApi 0 0; ReplDelState 0 0; Recon 0 [] [] [] []] in
+  let s := run (init 1) ops in
+  forallb nofail_op ops = true /\ map obs_of (trace (init 1) ops) = [(Started, []); (EnvOk, []); (EnvOk, []); (RFailed, [])] /\
+  s_q s = [] /\ s_nodes s 0 = mkNode false false false false false.
+Proof. vm_compute. repeat split. Qed.
+
+(* a latched replacement that vanishes (delivered) now fails the command instead of deleting the candidates *)
+Example latched_replacement_gone_now_fails :
+  map obs_of (trace (init 2) gone_witness)
+  = [(Started, []); (EnvOk, []); (EnvOk, []); (EnvOk, []); (RRequeue, []); (EnvOk, []); (EnvOk, []); (EnvOk, []); (RFailed, [])].
+Proof. vm_compute. reflexivity. Qed.
+
+(* a command that completes after its timeout is a success *)
+Example late_success :
+  map obs_of (trace (init 1) timeout_witness)
+  = [(Started, []); (EnvOk, []); (EnvOk, []); (EnvOk, []); (RSucceeded, [(0, true, true)])].
+Proof. vm_compute. reflexivity. Qed.
+
+(* a command that is still waiting at its timeout is given up without deleting *)
+Example timeout_while_waiting :
+  map obs_of (trace (init 1) [Start [0] 1 [] [] []; ReplLaunch 0 0; Advance 600001; Recon 0 [] [] [] []])
+  = [(Started, []); (EnvOk, []); (EnvOk, []); (RFailed, [])].
+Proof. vm_compute. reflexivity. Qed.
 
 (* a failed start leaves a taint behind; the next controller pass removes it *)
 Example failed_start_then_cleanup :
@@ -130,14 +169,17 @@ Example failed_start_then_cleanup :
   n_taint (s_nodes s2 0) = false /\ n_cond (s_nodes s2 0) = false.
 Proof. vm_compute. repeat split. Qed.
 
-(* the two findings, as the model (and the real code) behave *)
-Example timeout_after_delete :
-  map (fun x => (o_ret (snd x), deletes (o_eff (snd x)))) (trace (init 1) timeout_witness)
-  = [(Started, []); (EnvOk, []); (EnvOk, []); (EnvOk, []); (RFailed, [(0, true)])].
+(* the remaining finding, as the model (and the real code) behave *)
+Example partial_delete_then_timeout :
+  map obs_of (trace (init 2) partial_witness)
+  = [(Started, []); (EnvOk, []); (EnvOk, []); (RRequeue, [(0, true, true)]); (EnvOk, []); (RFailed, [(0, true, true)])].
 Proof. vm_compute. reflexivity. Qed.
 
-Example latched_replacement_gone :
-  o_ret (snd (last (trace (init 2) gone_witness) (snap_of (init 0), Restart, mkObs EnvOk [] (snap_of (init 0))))) = RSucceeded /\
-  deletes (o_eff (snd (last (trace (init 2) gone_witness) (snap_of (init 0), Restart, mkObs EnvOk [] (snap_of (init 0))))))
-  = [(0, false); (1, false)].
-Proof. vm_compute. split; reflexivity. Qed.
+(* the guard of the API-level theorem is satisfiable on a deleting pass *)
+Example deliveries_done_example :
+  deliveries_done (nth 3 (trace (init 1) [Start [0] 1 [] [] []; ReplLaunch 0 0; ReplInit 0 0; Recon 0 [] [] [] []])
+                       (snap_of (init 0), Restart, mkObs EnvOk [] (snap_of (init 0)))).
+Proof.
+  unfold deliveries_done. simpl. intros n c Hn Hc j r Hj Hr He. inversion Hn; subst n. simpl in Hc.
+  destruct Hc as [<-|[]]. simpl in *. destruct Hr as [Hr|[]]. inversion Hr; subst. simpl in He. discriminate.
+Qed.
